@@ -123,7 +123,7 @@ func (e *Enc) loopCandidates(f *Frame, li *loopInfo) []*Clause {
 	// the function's entry state
 	if sp := e.P.specFor(f.fn); sp != nil {
 		for _, en := range sp.Ensures {
-			if !strings.Contains(en.Text, "old(") || strings.Contains(en.Text, "result") {
+			if strings.Contains(en.Text, "result") || strings.Contains(en.Text, "site") || strings.Contains(en.Text, "at(") {
 				continue
 			}
 			cl := en
